@@ -70,6 +70,14 @@ Invalid(a) == LET ty == TypeOf(a)  tk == ChoiceTokens(a.ch) IN
     [] ty = "one"    -> "verif_nochoice"
     [] ty = "multi"  -> tk[1] \o ",verif_nochoice"
     [] OTHER         -> "verif_a"
+\* multi-word values for bracketed choice lists: the undeclared word in every position, and an
+\* all-declared value with a duplicate and repeated / mixed separators
+WordVal(a, vi) == LET tk == ChoiceTokens(a.ch)  n == Len(tk)  bad == "verif_nochoice" IN
+  CASE vi = -2 -> bad \o "," \o tk[n]                                   \* bad word first, valid last
+    [] vi = -3 -> tk[1] \o " " \o bad \o " " \o tk[n]                    \* bad word in the middle
+    [] vi = -4 -> tk[1] \o "," \o tk[n] \o ", " \o bad                   \* bad word last
+    [] vi = -5 -> tk[1] \o ",, " \o tk[1] \o " " \o tk[n]                 \* all declared: duplicate, repeated separators
+    [] vi = -6 -> bad \o " " \o tk[1] \o "," \o tk[n]                    \* bad first of three
 VarTab == [i \in CalcIdx |-> [r \in 1..Len(DeclOf[i].t) |-> Variants(DeclOf[i].t[r].a)]]
 \* design-level check of the value tables against the literal classifiers
 ASSUME \A i \in CalcIdx : \A r \in 1..Len(DeclOf[i].t) : DeclOf[i].k[r] = <<>> =>
@@ -126,6 +134,8 @@ Scenarios(i) ==
   \cup {ScA("uattr", {}, NodeSeq[i][x], 0, {}, TRUE, 0, "unchecked") : x \in {y \in 1..Len(NodeSeq[i]) : y % Thin = 1 % Thin}}
   \cup {ScA("battr", {[r |-> ls[x], vi |-> 1]}, 0, 0, {}, TRUE, 0, "note") : x \in {y \in 1..Len(ls) : y % Thin = 2 % Thin}}
   \cup {Sc("emptyval", {[r |-> ls[x], vi |-> -1]}, 0, 0, {}, TRUE, 0) : x \in {y \in 1..Len(ls) : y % Thin = 0}}
+  \cup {Sc("multiword", {[r |-> ls[x], vi |-> v]}, 0, 0, {}, TRUE, 0) :
+           x \in {y \in 1..Len(ls) : TypeOf(D.t[ls[y]].a) = "multi"}, v \in {-2, -3, -4, -5, -6}}
   \cup {Sc("biglist", {}, 0, 0, {[r |-> D.k[s][1], m |-> BigMult]}, TRUE, s) : s \in ListSecs[i]}
 
 -----------------------------------------------------------------------------
@@ -138,6 +148,7 @@ UserTree(i, s) ==
       Picked(r) == \E q \in s.picks : q.r = r
       ViOf(r) == (CHOOSE q \in s.picks : q.r = r).vi
       Val(r, vi, occ) == IF vi = -1 THEN ""                  \* the empty value <x></x>
+                         ELSE IF vi <= -2 THEN WordVal(D.t[r].a, vi)
                          ELSE IF vi = 0 THEN Invalid(D.t[r].a)
                          ELSE LET vs == VarTab[i][r] IN vs[1 + ((vi + occ - 2) % Len(vs))]
       Below(r) == \/ \E q \in s.picks : r < q.r /\ q.r <= D.e[r]
@@ -195,6 +206,8 @@ Check ==
      /\ Assert(sc.kind = "uattr" => (\E x \in R.errs : x.e = "undeclared") \/ D.t[sc.und].a.un, "user attributes do not switch the name check off")
      /\ Assert(sc.kind = "biglist" => Cardinality({j \in 1..Len(R.nodes) : R.nodes[j].n = D.t[D.k[sc.anc][1]].n /\ R.nodes[j].d = D.t[sc.anc].d + 1}) = BigMult,
                "one instance per occurrence")
+     /\ Assert(sc.kind = "multiword" => LET q == CHOOSE x \in sc.picks : TRUE IN
+                  (\E e \in R.errs : e.e = "choice" /\ e.n = D.t[q.r].n) <=> q.vi # -5, "a multi-word value is valid iff every word is declared")
      /\ Assert(sc.kind = "emptyval" => \E j \in 1..Len(UT) : IsLeaf(UT, j) /\ UT[j].v = "" /\ UT[j].d >= 2, "an empty value is written")
      /\ (Emit => PrintT(ToJson([calc |-> All[c].file, kind |-> sc.kind, fill |-> sc.fill,
                                 user |-> UserOutA(UT, sc.ua), exp |-> ResOut(R)])))
